@@ -120,3 +120,29 @@ func H_C13_channel() {
 		verifReach("C13.channel.error")
 	}
 }
+
+// two overlapping Process calls on one sink whose channel stays full: each of them gives up once its own timeout has elapsed
+// (the timeout of one call is not consumed, cancelled or shared by the other)
+func H_C13_channel_two_senders() {
+	ch := make(chan *eventlogger.Event, 1)
+	ch <- &eventlogger.Event{Type: "older"}
+	d := time.Duration(nondetInt())
+	verifAssume(d > 0)
+	verifAssume(d <= 1000000)
+	s, err := NewChannelSink(ch, d)
+	verifAssume(err == nil && s != nil)
+	ctx := &chCtx{}
+	done := make(chan error, 2)
+	go func() { _, e := s.Process(ctx, &eventlogger.Event{Type: "a"}); done <- e }()
+	go func() { _, e := s.Process(ctx, &eventlogger.Event{Type: "b"}); done <- e }()
+	// both are waiting by now; their timeouts elapse (twice over: a timer re-armed meanwhile elapses as well)
+	verifYield()
+	verifFireTimer()
+	verifYield()
+	verifFireTimer()
+	e1 := <-done
+	e2 := <-done
+	verifAssert(e1 != nil && e2 != nil, "C13.channel.two-senders.both-time-out")
+	verifAssert(len(ch) == 1, "C13.channel.two-senders.nothing-delivered")
+	verifReach("C13.channel.two-senders.end")
+}
